@@ -469,8 +469,9 @@ pub fn plan_archive_merge(
     sources.sort_by_key(|&(_, used)| used);
 
     // Greedily merge small segments into larger ones
+    // The destination keeps its own data: the write cursor starts behind it.
     let mut dest_idx = 0;
-    let mut dest_used = 0u64;
+    let mut dest_used = sources[0].1;
 
     for &(source_seg, source_used) in &sources[1..] {
         let (dest_seg, _) = sources[dest_idx];
